@@ -519,6 +519,27 @@ class Session:
         else:
             self.call("fresh", "forget", lambda: self.forget(B, uri))
 
+    def observe_closed(self, uri, text, ev, full):
+        """A file that no editor has open: the incremental server knows it from the disk (it was told about the rewrite),
+        the reference server is given the same text in a didOpen.  Their symbol lists must agree."""
+        if self.B is None:
+            self.call("fresh", "start", lambda: self.start("B"))
+        A, B = self.A, self.B
+        td = {"textDocument": {"uri": uri}}
+        ia = self.call("incr", "Query:closedFileSymbols", lambda: A.send_request("textDocument/documentSymbol", td))
+        self.call("fresh", "Fresh", lambda: B.notify("textDocument/didOpen", {"textDocument": {
+            "uri": uri, "languageId": "structured-text", "version": 1, "text": text}}))
+        ib = self.call("fresh", "Query:closedFileSymbols", lambda: B.send_request("textDocument/documentSymbol", td))
+        ra = answer_of(self.call("incr", "Query:closedFileSymbols", lambda: A.wait(ia, self.timeout)))
+        rb = answer_of(self.call("fresh", "Query:closedFileSymbols", lambda: B.wait(ib, self.timeout)))
+        ev.append({"a": "Query", "kind": "closedFileSymbols", "incr": digest(ra), "fresh": digest(rb)})
+        if self.keep:
+            full.append({"after_event": len(ev), "kind": "closedFileSymbols", "disk_text": text, "incr": ra, "fresh": rb})
+        if self.isolate:
+            self.stop("B")
+        else:
+            self.call("fresh", "forget", lambda: self.forget(B, uri))
+
     def run_script(self, s, kinds):
         """Returns (events, full answers).  A server that dies is recorded as a Panic event."""
         ev = [{"a": "Reset", "id": s["id"], "from": s.get("from", ""), "marker": cps(MARKER)}]
@@ -535,6 +556,9 @@ class Session:
             with open(disk_path, "w", encoding="utf-8", newline="") as f:
                 f.write(s["open"])
             uri = "file://" + disk_path
+        # ... and next to it lies a file that is never opened: what the server knows about it comes from the disk, and
+        # it is told about every rewrite.  The file keeps its length in most rewrites (one digit of a name changes).
+        dep_path = os.path.join(os.path.dirname(disk_path), "dep.st") if disk_path is not None else None
         try:
             if self.A is None:
                 self.call("incr", "start", lambda: self.start("A"))
@@ -574,11 +598,24 @@ class Session:
                     with open(disk_path, "w", encoding="utf-8", newline="") as f:
                         f.write("(* rewritten on disk *)\nPROGRAM OnDisk\nVAR other : BOOL; END_VAR\nother := TRUE;\nEND_PROGRAM\n")
                     self.call("incr", "Watched", lambda: A.notify("workspace/didChangeWatchedFiles", {"changes": [{"uri": uri, "type": 2}]}))
+                if dep_path is not None:
+                    k = (s["id"] + n) % 10
+                    name = f"zqdep{k}" + ("_longer" if (s["id"] + n) % 4 == 3 else "")
+                    dep_text = f"FUNCTION {name} : INT\n{name} := {k};\nEND_FUNCTION\n"
+                    existed = os.path.exists(dep_path)
+                    with open(dep_path, "w", encoding="utf-8", newline="") as f:
+                        f.write(dep_text)
+                    dep_uri = "file://" + dep_path
+                    self.call("incr", "Watched", lambda: A.notify("workspace/didChangeWatchedFiles", {"changes": [{"uri": dep_uri, "type": 2 if existed else 1}]}))
+                    self.observe_closed(dep_uri, dep_text, ev, full)
                 try:
                     model = apply_changes(model, st["changes"])
                 except ValueError:
                     break           # a line that does not exist: no defined meaning, nothing more to observe
                 self.observe(uri, model, kinds, ev, full)
+            if dep_path is not None and os.path.exists(dep_path):
+                os.unlink(dep_path)
+                self.call("incr", "Watched", lambda: A.notify("workspace/didChangeWatchedFiles", {"changes": [{"uri": "file://" + dep_path, "type": 3}]}))
             if self.isolate:
                 self.stop("A")
             else:
